@@ -871,6 +871,14 @@ class PlayingStatusReactor(StatusReactor):
     def __init__(self, connection):
         super(PlayingStatusReactor, self).__init__(connection, do_ping=False)
 
+    def react(self, packet):
+        # The status connection is closed and the login connection opened
+        # under the write lock, and only if nobody has called disconnect()
+        # in the meantime; otherwise that disconnect() would be lost.
+        with self.connection._write_lock:
+            if self.connection.connected:
+                super(PlayingStatusReactor, self).react(packet)
+
     def handle_status(self, status):
         if status == {}:
             # This can occur when we connect to a Mojang server while it is
@@ -899,6 +907,8 @@ class PlayingStatusReactor(StatusReactor):
         if isinstance(exc, EOFError):
             # An exception of this type may indicate that the server does not
             # properly support status queries, so we treat it as non-fatal.
-            self.connection.disconnect(immediate=True)
-            self.handle_failure()
+            with self.connection._write_lock:
+                if self.connection.connected:
+                    self.connection.disconnect(immediate=True)
+                    self.handle_failure()
             return True
